@@ -19,7 +19,7 @@ from harness.common import Check, MachineryError, cleanup, run_tlc, workdir
 TIERS = {
     # gen cfg, stride, combination cap, decoded values for all combos, generated tuples per signature (-1 all),
     # exploration cases, max paths per exploration, TLC batch size
-    "quick": dict(gen="AbiGen_q.cfg", stride=55, cap=16, all_values=True, ngen=-1, nexp=40, maxpaths=36, batch=400,
+    "quick": dict(gen="AbiGen_q.cfg", stride=80, cap=12, all_values=True, ngen=-1, nexp=40, maxpaths=36, batch=400,
                   mc=["MC_Abi_q.cfg"]),
     "thorough": dict(gen="AbiGen_t.cfg", stride=1, cap=24, all_values=False, ngen=2, nexp=600, maxpaths=64, batch=2500,
                      mc=["MC_Abi_d2.cfg", "MC_Abi_d3.cfg"]),
